@@ -1206,3 +1206,302 @@ def _uses_see_no_write(stmt, use_ids, rm, rl):
         return expr(s, acc)
     _a, ok = scan(stmt, (set(), set()))
     return ok
+
+
+# ---------------------------------------------------------------------------------------------------------------------------------
+# constructs that the path / loop model does not interpret
+
+ALGS = {'any_of', 'all_of', 'none_of', 'find_if', 'find_if_not', 'for_each', 'transform', 'accumulate', 'count_if', 'copy_if', 'remove_if', 'min_element', 'max_element',
+        'sort', 'stable_sort', 'partition', 'replace_if', 'inner_product', 'reduce', 'generate', 'for_each_n', 'adjacent_find', 'equal', 'mismatch', 'lower_bound', 'upper_bound'}
+
+
+def opaque_tokens(body):
+    """what a function contains that is evaluated by no rule engine: calls of standard algorithms that take a lambda, lambdas that are not an argument
+    of a call (kept in a local, invoked in place), do-while loops, gotos.  Recorded per function in the reviewed inventory; a function that has MORE of
+    them than the inventory says has been reshaped with constructs the analysis cannot see through."""
+    out = []
+    arg_lambdas = set()
+    for x in _walk(body):
+        k = x.get('k')
+        if k in ('CallExpr', 'CXXMemberCallExpr', 'CXXOperatorCallExpr', 'CXXConstructExpr') :
+            has = False
+            for a in (x.get('c') or ())[0 if k == 'CXXConstructExpr' else 1:]:
+                y = a
+                g = 0
+                while isinstance(y, dict) and y.get('k') in ('CXXConstructExpr', 'CXXFunctionalCastExpr', 'CXXBindTemporaryExpr', 'MaterializeTemporaryExpr', 'ExprWithCleanups') and len(y.get('c') or ()) == 1 and g < 6:
+                    y = y['c'][0]
+                    g += 1
+                if isinstance(y, dict) and y.get('k') == 'LambdaExpr':
+                    arg_lambdas.add(id(y))
+                    has = True
+            nm = (x.get('callee_name') or '')
+            if k == 'CallExpr' and nm.startswith('std::') and nm.rsplit('::', 1)[-1] in ALGS and has:
+                out.append('alg:' + nm.rsplit('::', 1)[-1])
+        elif k == 'DoStmt':
+            out.append('do')
+        elif k == 'GotoStmt':
+            out.append('goto')
+    for x in _walk(body):
+        if x.get('k') == 'LambdaExpr' and id(x) not in arg_lambdas:
+            out.append('lambda-local')
+    return sorted(out)
+
+
+def new_opaque(body, known):
+    cur = opaque_tokens(body)
+    left = list(known or ())
+    new = []
+    for t in cur:
+        if t in left:
+            left.remove(t)
+        else:
+            new.append(t)
+    return new
+
+
+# ---------------------------------------------------------------------------------------------------------------------------------
+# standard algorithms that are loops, lambdas that are blocks
+
+def _unwrap(x):
+    g = 0
+    while isinstance(x, dict) and x.get('k') in ('CXXConstructExpr', 'CXXFunctionalCastExpr', 'CXXBindTemporaryExpr', 'MaterializeTemporaryExpr', 'ExprWithCleanups', 'ParenExpr') \
+            and len(x.get('c') or ()) == 1 and g < 8:
+        x = x['c'][0]
+        g += 1
+    return x
+
+
+def _range_of(b, e):
+    """container C when (b, e) is (C.begin(), C.end()) / (C.cbegin(), C.cend()) of one side-effect free container expression, else None."""
+    b, e = _unwrap(b), _unwrap(e)
+    cb, ce = _member_call(b, ('begin', 'cbegin')), _member_call(e, ('end', 'cend'))
+    if cb is None or ce is None or not _pure_lvalue(cb) or canon(cb, None) != canon(ce, None):
+        return None
+    return cb
+
+
+def _lambda_param_var(lam, i=0):
+    ps = lam.get('params') or []
+    if len(ps) <= i:
+        return None
+    p = ps[i]
+    return {'k': 'VarDecl', 'loc': p.get('loc'), 'name': p.get('name') or '', 'static': False, 't': p.get('t'), 'synthetic': 'lambda parameter'}
+
+
+def _params_as_locals(body, lam):
+    """the references to the parameters of the lambda become references to locals (the loop variable they turn into)"""
+    locs = {p.get('loc') for p in lam.get('params') or () if p.get('loc')}
+
+    def fn(x):
+        if x.get('k') == 'DeclRefExpr' and x.get('refk') == 'ParmVar' and x.get('dloc') in locs:
+            y = dict(x)
+            y['refk'] = 'Var'
+            y['local'] = True
+            return y
+        return None
+    return _replace(body, fn)
+
+
+def _desugar_algorithm(s):
+    """`std::for_each(C.begin(), C.end(), [..](x) { B })` is `for (x : C) { B }` (a `return;` of the lambda is a `continue`);
+    `std::transform(C.begin(), C.end(), std::back_inserter(V), [..](x) { return E; })` is `for (x : C) V.push_back(E);`."""
+    call = _unwrap(s)
+    if not isinstance(call, dict) or call.get('k') != 'CallExpr':
+        return None
+    nm = call.get('callee_name')
+    args = (call.get('c') or [])[1:]
+    if nm == 'std::for_each' and len(args) == 3:
+        cont = _range_of(args[0], args[1])
+        lam = _unwrap(args[2])
+        if cont is None or not isinstance(lam, dict) or lam.get('k') != 'LambdaExpr' or len(lam.get('params') or ()) != 1 or not lam.get('c'):
+            return None
+        body = lam['c'][0]
+        if any(x.get('k') == 'ReturnStmt' and x.get('c') for x in _walk_nolambda(body)):
+            return None
+
+        def ret2cont(x):
+            if x.get('k') == 'ReturnStmt' and not x.get('c'):
+                return {'k': 'ContinueStmt', 'loc': x.get('loc'), 'end': x.get('end'), 'id': x.get('id')}
+            if x.get('k') == 'LambdaExpr':
+                return x
+            return None
+        body = _params_as_locals(_replace(body, ret2cont), lam)
+        return {'k': 'CXXForRangeStmt', 'loc': call.get('loc'), 'end': call.get('end'), 'id': call.get('id'), 'normalised_from': 'std::for_each',
+                'slots': {'var': _lambda_param_var(lam), 'range': cont, 'body': body}}
+    if nm == 'std::transform' and len(args) == 4:
+        cont = _range_of(args[0], args[1])
+        lam = _unwrap(args[3])
+        bi = _unwrap(args[2])
+        if cont is None or not isinstance(lam, dict) or lam.get('k') != 'LambdaExpr' or len(lam.get('params') or ()) != 1 or not lam.get('c'):
+            return None
+        if not isinstance(bi, dict) or bi.get('k') != 'CallExpr' or bi.get('callee_name') != 'std::back_inserter' or len(bi.get('c') or ()) != 2:
+            return None
+        vec = bi['c'][1]
+        e = _single_return_expr(lam['c'][0])
+        if e is None or not _pure_lvalue(vec):
+            return None
+        vt = _strip_t(vec.get('t'))
+        mname = vt + '::push_back'
+        me = {'k': 'MemberExpr', 'member': mname, 'arrow': False, 'is_field': False, 'c': [vec], 'loc': call.get('loc'), 't': '<bound member function type>'}
+        pb = {'k': 'CXXMemberCallExpr', 'callee_name': mname, 'callee': mname + '(value_type &&)', 'c': [me, e], 'loc': call.get('loc'), 'end': call.get('end'), 't': 'void'}
+        body = _params_as_locals({'k': 'CompoundStmt', 'c': [pb], 'loc': lam.get('loc')}, lam)
+        return {'k': 'CXXForRangeStmt', 'loc': call.get('loc'), 'end': call.get('end'), 'id': call.get('id'), 'normalised_from': 'std::transform',
+                'slots': {'var': _lambda_param_var(lam), 'range': cont, 'body': body}}
+    return None
+
+
+def _lambda_of_decl(s):
+    """(VarDecl, LambdaExpr) when s is `auto f = [..](..) { .. };`"""
+    if s.get('k') != 'DeclStmt' or len(s.get('c') or ()) != 1 or s['c'][0].get('k') != 'VarDecl' or not isinstance(s['c'][0].get('init'), dict):
+        return None
+    lam = _unwrap(s['c'][0]['init'])
+    if isinstance(lam, dict) and lam.get('k') == 'LambdaExpr' and lam.get('c'):
+        return s['c'][0], lam
+    return None
+
+
+def _lambda_call(x, dloc):
+    """argument list when x is the call `f(args)` of the local lambda declared at dloc"""
+    if x.get('k') == 'CXXOperatorCallExpr' and x.get('op') == '()' and len(x.get('c') or ()) >= 2 and _is_ref(_unwrap(x['c'][1]), dloc):
+        return list(x['c'][2:])
+    return None
+
+
+def desugar(body):
+    """statement-level std::for_each / std::transform become loops; a lambda kept in a local (or invoked in place) becomes the block / expression it
+    stands for where it is called (void lambdas called as a statement - early exits turned into nesting -, lambdas that are one `return E;` anywhere), and the
+    lambda itself where the local is handed to an algorithm.  Returns the rewritten body and the number of rewrites."""
+    count = [0]
+
+    def lam_param_dicts(lam):
+        return [{'loc': p.get('loc'), 'name': p.get('name'), 't': p.get('t')} for p in lam.get('params') or ()]
+
+    def inline_stmt(lam, args):
+        b = lam['c'][0]
+        if any(x.get('k') == 'ReturnStmt' and x.get('c') for x in _walk_nolambda(b)):
+            return None
+        if any(x.get('k') == 'ReturnStmt' for x in _walk_nolambda(b)):
+            b = _no_returns(b)
+            if b is None:
+                return None
+        ps = lam_param_dicts(lam)
+        if len(ps) != len(args):
+            return None
+        decls = []
+        blk = _param_subst(b, ps, args, decls)
+        if decls:
+            blk = dict(blk)
+            blk['c'] = decls + list(blk.get('c') or ())
+        return blk
+
+    def block(blk):
+        cs = list(blk.get('c') or ())
+        # in-place invoked lambda as an initialiser: T x = [..]() { pre; return E; }();
+        out = []
+        lambdas = {}        # dloc -> (decl stmt, VarDecl, LambdaExpr)
+        for s in cs:
+            s = rewrite(s)
+            ld = _lambda_of_decl(s) if isinstance(s, dict) else None
+            if ld is not None:
+                lambdas[ld[0]['loc']] = (s, ld[0], ld[1])
+                out.append(s)
+                continue
+            a = _desugar_algorithm(s) if isinstance(s, dict) else None
+            if a is not None:
+                count[0] += 1
+                out.append(rewrite(a))
+                continue
+            out.append(s)
+        if lambdas:
+            res = []
+            for s in out:
+                done = False
+                for dloc, (ds, vd, lam) in lambdas.items():
+                    if s is ds:
+                        continue
+                    args = _lambda_call(_unwrap(s), dloc) if isinstance(s, dict) else None
+                    if args is not None:
+                        b = inline_stmt(lam, args)
+                        if b is not None:
+                            count[0] += 1
+                            res.append(rewrite(b))
+                            done = True
+                            break
+                if done:
+                    continue
+                if any(s is v[0] for v in lambdas.values()):
+                    res.append(s)
+                    continue
+                # expression-level: single-return lambdas; the lambda itself where its name is an argument
+                def fn(x):
+                    for dloc, (ds, vd, lam) in lambdas.items():
+                        args = _lambda_call(x, dloc)
+                        if args is not None:
+                            e = _single_return_expr(lam['c'][0])
+                            ps = lam_param_dicts(lam)
+                            if e is not None and len(ps) == len(args):
+                                count[0] += 1
+                                return _param_subst(e, ps, [_replace(a, fn) for a in args])
+                    return None
+                s2 = _replace(s, fn) if s not in [v[0] for v in lambdas.values()] else s
+
+                def fn2(x):
+                    if x.get('k') in ('CallExpr', 'CXXMemberCallExpr') and (x.get('callee_name') or '').startswith('std::'):
+                        changed = False
+                        c2 = []
+                        for a in x.get('c') or ():
+                            u = _unwrap(a)
+                            hit = None
+                            for dloc, (ds, vd, lam) in lambdas.items():
+                                if _is_ref(u, dloc):
+                                    hit = lam
+                            if hit is not None:
+                                c2.append(hit)
+                                changed = True
+                                count[0] += 1
+                            else:
+                                c2.append(_replace(a, fn2))
+                        if changed:
+                            y = dict(x)
+                            y['c'] = c2
+                            return y
+                    return None
+                s2 = _replace(s2, fn2)
+                res.append(s2)
+            # a lambda local that nobody refers to any more is gone
+            final = []
+            for s in res:
+                drop = False
+                for dloc, (ds, vd, lam) in lambdas.items():
+                    if s is ds and not any(_is_ref(x, dloc) for y in res if y is not ds for x in _walk(y)):
+                        drop = True
+                if not drop:
+                    final.append(s)
+            out = final
+        nb = dict(blk)
+        nb['c'] = out
+        return nb
+
+    def rewrite(n):
+        if not isinstance(n, dict):
+            return n
+        if n.get('k') == 'CompoundStmt':
+            return block(n)
+        o = dict(n)
+        if n.get('c'):
+            o['c'] = [rewrite(c) for c in n['c']]
+        if isinstance(n.get('init'), dict):
+            o['init'] = rewrite(n['init'])
+        if n.get('slots'):
+            sl = {}
+            for key, v in n['slots'].items():
+                v2 = rewrite(v) if isinstance(v, dict) else v
+                if key in ('then', 'else', 'body') and isinstance(v2, dict) and v2.get('k') != 'CompoundStmt':
+                    a = _desugar_algorithm(v2)
+                    if a is not None:
+                        count[0] += 1
+                        v2 = rewrite(a)
+                sl[key] = v2
+            o['slots'] = sl
+        return o
+    return rewrite(body), count[0]
